@@ -8,6 +8,14 @@ Import ListNotations.
 Open Scope list_scope.
 Ltac Zify.zify_post_hook ::= Z.to_euclidean_division_equations.
 
+Lemma in_firstn' {A} (x : A) : forall n l, In x (firstn n l) -> In x l.
+Proof.
+  induction n as [|n IH]; intros l H; [destruct H|]. destruct l as [|y l]; [destruct H|].
+  cbn [firstn] in H. destruct H as [H|H]; [left; exact H|right; apply IH; exact H].
+Qed.
+Lemma in_skipn' {A} (x : A) : forall n l, In x (skipn n l) -> In x l.
+Proof. induction n as [|n IH]; intros l H; [exact H|]. destruct l as [|y l]; [destruct H|]. right. apply IH. exact H. Qed.
+
 Lemma tsum_firstn q : forall xs ws, tsum q (firstn (List.length xs) ws) xs = tsum q ws xs.
 Proof.
   induction xs as [|x xs IH]; intros [|w ws]; cbn [List.length firstn tsum]; try reflexivity.
@@ -100,20 +108,21 @@ Hypothesis Hposof : positions_of g account = Ok (Z.of_nat a, Z.of_nat b, Z.of_na
 Hypothesis Hab : (1 <= a /\ a <= b /\ b <= 10)%nat.
 Hypothesis Hc : (1 <= c <= 10)%nat.
 Hypothesis Kdig : g_digits g = DDefault.
-Hypothesis Krem : g_rem g = RMod.
 Hypothesis Kq : cross_of (g_summand g) = Some q.
 Hypothesis Kw : forallb (fun w => (0 <=? w) && (w <=? 10))%Z (g_weights g) = true.
 Hypothesis Kwne : g_weights g <> [].
-Hypothesis Kmod : (0 < g_modulus g <= 99)%Z.
-Hypothesis Kmin : match g_minuend g with None => True | Some m => (g_modulus g - 1 <= m <= 99)%Z end.
 Hypothesis Hdig : forallb is_ascii_digit account = true.
 Hypothesis Hlen : List.length account = 10%nat.
 
 Let ds := digs account.
 Definition oriented : list Z := if g_reverse g then rev (span a b ds) else span a b ds.
 Definition wadj (s : Z) : Z := match g_wsum g with WPlain => s | WMinus1 => (s - 1)%Z end.
-Definition std_rem : Z := (wadj (tsum q (cycle_to (g_weights g) [] (b - (a - 1))%nat) oriented) mod g_modulus g)%Z.
+Definition std_sum : Z := wadj (tsum q (cycle_to (g_weights g) [] (b - (a - 1))%nat) oriented).
+(* what compute_remainder makes of the weighted sum (the hook: modulo, or iterated cross sum) *)
+Variable std_rem : Z.
+Hypothesis Hrem : remainder_of nd g std_sum = Ok std_rem.
 Definition std_checksum : Z := match g_minuend g with None => std_rem | Some m => (m - std_rem)%Z end.
+Hypothesis HR : (0 <= std_checksum <= 99)%Z.
 
 Lemma std_digits :
   get_digits nd 10 g account = Ok (if g_reverse g then rev (sl (a - 1)%nat b account) else sl (a - 1)%nat b account).
@@ -144,27 +153,19 @@ Proof using All.
     by (destruct (g_reverse g); rewrite ?rev_length; exact Hl).
   rewrite Hl'.
   rewrite (wsum_go_tsum g q Kq).
-  - cbn [bind]. unfold remainder_of. rewrite Krem. cbn [bind].
+  - cbn [bind].
     assert (E : map dv (if g_reverse g then rev (sl (a - 1)%nat b account) else sl (a - 1)%nat b account) = oriented).
     { unfold oriented. rewrite span_sl. destruct (g_reverse g); [apply map_rev|reflexivity]. }
-    rewrite E. fold (wadj (tsum q (cycle_to (g_weights g) [] (b - (a - 1))%nat) oriented)).
-    fold std_rem. fold std_checksum. reflexivity.
+    rewrite E. fold (wadj (tsum q (cycle_to (g_weights g) [] (b - (a - 1))%nat) oriented)). fold std_sum.
+    rewrite Hrem. cbn [bind]. fold std_checksum. reflexivity.
   - pose proof (sl_forallb is_ascii_digit (a - 1)%nat b account Hdig) as F.
     destruct (g_reverse g); [|exact F]. rewrite forallb_forall in *. intros x Hx. apply in_rev in Hx. exact (F x Hx).
   - apply cycle_to_forallb; [exact Kw|reflexivity].
 Qed.
 
-Lemma std_rem_range : (0 <= std_rem < g_modulus g)%Z.
-Proof using All. unfold std_rem. apply Z.mod_pos_bound. lia. Qed.
-
-Lemma std_checksum_range : (0 <= std_checksum <= 99)%Z.
-Proof using All.
-  pose proof std_rem_range as R. unfold std_checksum. destruct (g_minuend g) as [m|]; lia.
-Qed.
-
 Lemma reconcile_range r : reconcile g std_checksum std_rem = Ok r -> (0 <= r <= 99)%Z.
 Proof using All.
-  pose proof std_checksum_range as C. unfold reconcile.
+  pose proof HR as C. unfold reconcile.
   destruct (g_rec g).
   - intro H. apply Ok_inj' in H. subst r. destruct (10 <=? std_checksum)%Z; lia.
   - destruct (Z.eqb std_rem 0); [intro H; apply Ok_inj' in H; subst r; lia|].
@@ -311,33 +312,34 @@ Proof using All.
       repeat match goal with X : (_ && _)%bool = true |- _ => apply andb_true_iff in X as [? ?] end;
       repeat match goal with X : (_ =? _)%Z = true |- _ => apply Z.eqb_eq in X end; lia. }
   assert (Krev : g_reverse g = true) by assumption.
-  assert (Erem : std_rem g a b q account = rem_of a b ws q m (digs account)).
-  { unfold std_rem, rem_of, oriented, wadj. rewrite Krev, Kws, Hws.
+  set (R := (std_sum g a b q account mod g_modulus g)%Z).
+  assert (Hrem : remainder_of nd g (std_sum g a b q account) = Ok R) by (unfold remainder_of; rewrite Krem; reflexivity).
+  assert (Hrange : (0 <= R < g_modulus g)%Z) by (apply Z.mod_pos_bound; lia).
+  assert (HR : (0 <= std_checksum g R <= 99)%Z) by (unfold std_checksum; destruct (g_minuend g); lia).
+  assert (Erem : R = rem_of a b ws q m (digs account)).
+  { unfold R, std_sum, rem_of, oriented, wadj. rewrite Krev, Kws, Hws.
     assert (Hn : (b - (a - 1))%nat = List.length (rev (span a b (digs account)))).
     { rewrite rev_length. unfold span, digs. rewrite firstn_length, skipn_length, map_length. lia. }
     rewrite Hn, tsum_firstn. subst m. reflexivity. }
-  pose proof (std_rem_range g a b c q account0 account Hadj Hposof ltac:(lia) ltac:(lia) Kdig Krem Kq
-                ltac:(assumption) Kwne Kmod Kmin Hdig Hlen) as Hrange.
+  pose proof (std_validate g a b c q account0 account Hadj Hposof ltac:(lia) ltac:(lia) Kdig Kq
+                ltac:(assumption) Kwne Hdig Hlen R Hrem HR) as SV.
+  pose proof (std_compute_core g a b c q account0 account Hadj Hposof ltac:(lia) ltac:(lia) Kdig Kq
+                ltac:(assumption) Kwne Hdig Hlen R Hrem HR) as SC.
   split; [|split; [|split; [|split]]].
-  - rewrite (std_validate g a b c q account0 account Hadj Hposof ltac:(lia) ltac:(lia) Kdig Krem Kq
-               ltac:(assumption) Kwne Kmod Kmin Hdig Hlen).
-    unfold std_checksum. rewrite (reconcile_expected g res (std_rem g a b q account) _ Kres Hrange).
+  - rewrite SV. unfold std_checksum. rewrite (reconcile_expected g res R _ Kres Hrange).
     unfold std. fold (rem_of a b ws q m (digs account)). rewrite Erem. reflexivity.
-  - cbv zeta. rewrite (std_compute_core g a b c q account0 account Hadj Hposof ltac:(lia) ltac:(lia) Kdig Krem Kq
-               ltac:(assumption) Kwne Kmod Kmin Hdig Hlen).
-    unfold std_checksum. rewrite Erem. reflexivity.
+  - cbv zeta. rewrite SC. unfold std_checksum. rewrite Erem. reflexivity.
   - rewrite <- Erem. subst m. exact Hrange.
   - reflexivity.
-  - intros r Hr. rewrite <- Erem in Hr. fold (std_checksum g a b q account) in Hr.
-    pose proof (reconcile_expected g res (std_rem g a b q account) (pos c (digs account)) Kres Hrange) as RE.
-    fold (std_checksum g a b q account) in RE. rewrite Hr in RE. cbn [bind verdict] in RE.
+  - intros r Hr. rewrite <- Erem in Hr. fold (std_checksum g R) in Hr.
+    pose proof (reconcile_expected g res R (pos c (digs account)) Kres Hrange) as RE.
+    fold (std_checksum g R) in RE. rewrite Hr in RE. cbn [bind verdict] in RE.
     assert (Estd : std a b c ws q m res (digs account) = (pos c (digs account) =? r)%Z).
     { unfold std. fold (rem_of a b ws q m (digs account)). rewrite <- Erem. congruence. }
     split; [exact Estd|]. split.
-    + exact (reconcile_range g a b c q account0 account Hadj Hposof ltac:(lia) ltac:(lia) Kdig Krem Kq
-               ltac:(assumption) Kwne Kmod Kmin Hdig Hlen r Hr).
-    + rewrite (std_validate g a b c q account0 account Hadj Hposof ltac:(lia) ltac:(lia) Kdig Krem Kq
-               ltac:(assumption) Kwne Kmod Kmin Hdig Hlen). rewrite Hr. cbn [bind]. rewrite Estd. reflexivity.
+    + exact (reconcile_range g a b c q account0 account Hadj Hposof ltac:(lia) ltac:(lia) Kdig Kq
+               ltac:(assumption) Kwne Hdig Hlen R Hrem HR r Hr).
+    + rewrite SV, Hr. cbn [bind]. rewrite Estd. reflexivity.
 Qed.
 
 Theorem std_method g a b c q res ws m account :
@@ -607,5 +609,153 @@ Proof using All.
   destruct (std a1 b1 c1 ws1 q1 m1 Minus11_06 (digs account)); [reflexivity|].
   destruct (std a2 b2 c2 ws2 q2 m2 Minus11_06 (digs account)); [reflexivity|].
   destruct (std a3 b3 c3 ws3 q3 m3 Minus11_06 (digs account)); reflexivity.
+Qed.
+
+(* ---- 17: weights from the left, cross sums, (sum - 1) mod 11, 10 - remainder ------------------------------------ *)
+Definition kcomp_default (k : k_compute) : bool := match k with CDefault => true | _ => false end.
+Definition ok17 (g : gclass) : bool :=
+  (let '(pa, pb, pc) := g_positions g in (pa =? 2)%Z && (pb =? 7)%Z && (pc =? 8)%Z)
+  && k_pos_static (g_pos g) && k_adj_id (g_adj g) && k_digits_default (g_digits g) && k_rem_mod (g_rem g)
+  && negb (g_reverse g) && match g_wsum g with WMinus1 => true | _ => false end
+  && match g_summand g with SDigitSum => true | _ => false end
+  && zlist_eqb (g_weights g) [1; 2]%Z && (g_modulus g =? 11)%Z
+  && match g_minuend g with Some mm => (mm =? 10)%Z | None => false end
+  && match g_rec g with RecDefault => true | _ => false end
+  && match g_validate g with VDefault => true | _ => false end.
+
+Theorem m17_method g account :
+  ok17 g = true -> forallb is_ascii_digit account = true -> List.length account = 10%nat ->
+  verdict (validate1 nd tbl 10 g account)
+  = Some (let r := ((tsum CrossSum [1; 2; 1; 2; 1; 2] (span 2 7 (digs account)) - 1) mod 11)%Z in
+          (pos 8 (digs account) =? (if (r =? 0)%Z then 0 else 10 - r))%Z).
+Proof using All.
+  intros H Hd Hl. unfold ok17 in H. repeat (apply andb_true_iff in H as [H ?]).
+  destruct (g_positions g) as [[pa pb] pc] eqn:Epos. repeat (apply andb_true_iff in H as [H ?]).
+  repeat match goal with X : (_ =? _)%Z = true |- _ => apply Z.eqb_eq in X end. subst pa pb pc.
+  destruct (g_pos g) eqn:Kpos; try discriminate. destruct (g_adj g) eqn:Kadj; try discriminate.
+  destruct (g_digits g) eqn:Kdig; try discriminate. destruct (g_rem g) eqn:Krem; try discriminate.
+  destruct (g_reverse g) eqn:Krev; try discriminate. destruct (g_wsum g) eqn:Kws; try discriminate.
+  destruct (g_summand g) eqn:Ksum; try discriminate. destruct (g_minuend g) as [mm|] eqn:Kmin; try discriminate.
+  destruct (g_rec g) eqn:Krec; try discriminate. destruct (g_validate g) eqn:Kv; try discriminate.
+  match goal with X : zlist_eqb (g_weights g) _ = true |- _ => apply zlist_eqb_eq in X; rename X into Kw end.
+  match goal with X : (mm =? 10)%Z = true |- _ => apply Z.eqb_eq in X; subst mm end.
+  match goal with X : g_modulus g = 11%Z |- _ => rename X into Kmod end.
+  unfold validate1. rewrite Kv.
+  assert (Hadj : adjust g account = account) by (unfold adjust; rewrite Kadj; reflexivity).
+  assert (Hposof : positions_of g account = Ok (Z.of_nat 2, Z.of_nat 7, Z.of_nat 8))
+    by (unfold positions_of; rewrite Kpos, Epos; reflexivity).
+  assert (Kq : cross_of (g_summand g) = Some CrossSum) by (rewrite Ksum; reflexivity).
+  assert (Hw1 : forallb (fun w => (0 <=? w) && (w <=? 10))%Z (g_weights g) = true) by (rewrite Kw; reflexivity).
+  assert (Hw2 : g_weights g <> []) by (rewrite Kw; discriminate).
+  set (R := (std_sum g 2 7 CrossSum account mod g_modulus g)%Z).
+  assert (Hrem : remainder_of nd g (std_sum g 2 7 CrossSum account) = Ok R) by (unfold remainder_of; rewrite Krem; reflexivity).
+  assert (Hrange : (0 <= R < 11)%Z) by (unfold R; rewrite Kmod; apply Z.mod_pos_bound; lia).
+  assert (HR : (0 <= std_checksum g R <= 99)%Z) by (unfold std_checksum; rewrite Kmin; lia).
+  rewrite (std_validate g 2 7 8 CrossSum account account Hadj Hposof ltac:(lia) ltac:(lia) Kdig Kq Hw1 Hw2 Hd Hl R Hrem HR).
+  unfold std_checksum, reconcile. rewrite Kmin, Krec. cbn [bind verdict]. cbv zeta. f_equal.
+  assert (ER : R = ((tsum CrossSum [1; 2; 1; 2; 1; 2] (span 2 7 (digs account)) - 1) mod 11)%Z).
+  { unfold R, std_sum, oriented, wadj. rewrite Krev, Kws, Kw, Kmod. reflexivity. }
+  rewrite <- ER.
+  destruct (Z.eqb_spec R 0) as [->|Hne]; [reflexivity|]. replace (10 <=? 10 - R)%Z with false by lia. reflexivity.
+Qed.
+
+(* ---- 21: the cross sum of the weighted sum is iterated down to one digit ------------------------------------------ *)
+Lemma iter_digit_sum_small z : (0 <= z <= 99)%Z -> iter_digit_sum nd 8 z = Ok (iter_cross 4 z).
+Proof using ND.
+  intro Hz. cbn [iter_digit_sum iter_cross].
+  destruct (Z.ltb_spec z 10) as [H1|H1]; [reflexivity|].
+  rewrite digit_sum_small by lia. cbn [bind].
+  replace (z / 100 + (z / 10) mod 10 + z mod 10)%Z with (z / 10 + z mod 10)%Z by lia.
+  set (z1 := (z / 10 + z mod 10)%Z). assert (Hz1 : (0 <= z1 <= 18)%Z) by (unfold z1; lia).
+  destruct (Z.ltb_spec z1 10) as [H2|H2]; [reflexivity|].
+  rewrite digit_sum_small by lia. cbn [bind].
+  replace (z1 / 100 + (z1 / 10) mod 10 + z1 mod 10)%Z with (z1 / 10 + z1 mod 10)%Z by lia.
+  set (z2 := (z1 / 10 + z1 mod 10)%Z). assert (Hz2 : (0 <= z2 <= 9)%Z) by (unfold z2; lia).
+  replace (z2 <? 10)%Z with true by lia. reflexivity.
+Qed.
+
+Lemma iter_cross_range z : (0 <= z <= 99)%Z -> (0 <= iter_cross 4 z <= 9)%Z.
+Proof.
+  intro Hz. cbn [iter_cross]. destruct (Z.ltb_spec z 10); [lia|].
+  set (z1 := (z / 100 + (z / 10) mod 10 + z mod 10)%Z). assert (Hz1 : (0 <= z1 <= 18)%Z) by (unfold z1; lia).
+  destruct (Z.ltb_spec z1 10); [lia|].
+  set (z2 := (z1 / 100 + (z1 / 10) mod 10 + z1 mod 10)%Z). assert (Hz2 : (0 <= z2 <= 9)%Z) by (unfold z2; lia).
+  replace (z2 <? 10)%Z with true by lia. lia.
+Qed.
+
+Lemma tsum_cross_bound : forall ws xs,
+  forallb (fun w => (0 <=? w) && (w <=? 2))%Z ws = true -> forallb (fun d => (0 <=? d) && (d <=? 9))%Z xs = true ->
+  (0 <= tsum CrossSum ws xs <= 9 * Z.of_nat (List.length xs))%Z.
+Proof.
+  induction ws as [|w ws IH]; intros [|x xs] Hw Hx; cbn [tsum List.length]; try lia.
+  cbn [forallb] in Hw, Hx. apply andb_true_iff in Hw as [Hw1 Hw]. apply andb_true_iff in Hx as [Hx1 Hx].
+  specialize (IH xs Hw Hx). unfold term.
+  assert (0 <= w * x <= 18)%Z by nia. lia.
+Qed.
+
+Lemma digs_range account : forallb is_ascii_digit account = true ->
+  forallb (fun d => (0 <=? d) && (d <=? 9))%Z (digs account) = true.
+Proof.
+  intro H. unfold digs. rewrite forallb_forall in *. intros d Hd. apply in_map_iff in Hd as (c & <- & Hc).
+  pose proof (dv_range c (H c Hc)). lia.
+Qed.
+
+Definition ok21 (g : gclass) : bool :=
+  (let '(pa, pb, pc) := g_positions g in (pa =? 1)%Z && (pb =? 9)%Z && (pc =? 10)%Z)
+  && k_pos_static (g_pos g) && k_adj_id (g_adj g) && k_digits_default (g_digits g)
+  && match g_rem g with RIterDigitSum => true | _ => false end
+  && g_reverse g && k_wsum_plain (g_wsum g)
+  && match g_summand g with SDigitSum => true | _ => false end
+  && zlist_eqb (g_weights g) [2; 1]%Z
+  && match g_minuend g with Some mm => (mm =? 10)%Z | None => false end
+  && match g_rec g with RecDefault => true | _ => false end
+  && match g_validate g with VDefault => true | _ => false end.
+
+Theorem m21_method g account :
+  ok21 g = true -> forallb is_ascii_digit account = true -> List.length account = 10%nat ->
+  verdict (validate1 nd tbl 10 g account)
+  = Some (let qq := iter_cross 4 (tsum CrossSum w21 (rev (span 1 9 (digs account)))) in
+          (pos 10 (digs account) =? (if (qq =? 0)%Z then 0 else 10 - qq))%Z).
+Proof using All.
+  intros H Hd Hl. unfold ok21 in H. repeat (apply andb_true_iff in H as [H ?]).
+  destruct (g_positions g) as [[pa pb] pc] eqn:Epos. repeat (apply andb_true_iff in H as [H ?]).
+  repeat match goal with X : (_ =? _)%Z = true |- _ => apply Z.eqb_eq in X end. subst pa pb pc.
+  destruct (g_pos g) eqn:Kpos; try discriminate. destruct (g_adj g) eqn:Kadj; try discriminate.
+  destruct (g_digits g) eqn:Kdig; try discriminate. destruct (g_rem g) eqn:Krem; try discriminate.
+  destruct (g_reverse g) eqn:Krev; try discriminate. destruct (g_wsum g) eqn:Kws; try discriminate.
+  destruct (g_summand g) eqn:Ksum; try discriminate. destruct (g_minuend g) as [mm|] eqn:Kmin; try discriminate.
+  destruct (g_rec g) eqn:Krec; try discriminate. destruct (g_validate g) eqn:Kv; try discriminate.
+  match goal with X : zlist_eqb (g_weights g) _ = true |- _ => apply zlist_eqb_eq in X; rename X into Kw end.
+  match goal with X : (mm =? 10)%Z = true |- _ => apply Z.eqb_eq in X; subst mm end.
+  unfold validate1. rewrite Kv.
+  assert (Hadj : adjust g account = account) by (unfold adjust; rewrite Kadj; reflexivity).
+  assert (Hposof : positions_of g account = Ok (Z.of_nat 1, Z.of_nat 9, Z.of_nat 10))
+    by (unfold positions_of; rewrite Kpos, Epos; reflexivity).
+  assert (Kq : cross_of (g_summand g) = Some CrossSum) by (rewrite Ksum; reflexivity).
+  assert (Hw1 : forallb (fun w => (0 <=? w) && (w <=? 10))%Z (g_weights g) = true) by (rewrite Kw; reflexivity).
+  assert (Hw2 : g_weights g <> []) by (rewrite Kw; discriminate).
+  assert (ES : std_sum g 1 9 CrossSum account = tsum CrossSum w21 (rev (span 1 9 (digs account)))).
+  { unfold std_sum, oriented, wadj. rewrite Krev, Kws, Kw. reflexivity. }
+  assert (HS : (0 <= std_sum g 1 9 CrossSum account <= 99)%Z).
+  { rewrite ES.
+    pose proof (tsum_cross_bound w21 (rev (span 1 9 (digs account))) eq_refl) as B.
+    assert (Hx : forallb (fun d => (0 <=? d) && (d <=? 9))%Z (rev (span 1 9 (digs account))) = true).
+    { pose proof (digs_range account Hd) as F. rewrite forallb_forall in *. intros d Hin. apply in_rev in Hin.
+      unfold span in Hin. apply in_firstn' in Hin. apply in_skipn' in Hin. exact (F d Hin). }
+    specialize (B Hx).
+    assert (Hl9 : List.length (rev (span 1 9 (digs account))) = 9%nat).
+    { rewrite rev_length. unfold span, digs. rewrite firstn_length, skipn_length, map_length, Hl. reflexivity. }
+    rewrite Hl9 in B. lia. }
+  set (R := iter_cross 4 (std_sum g 1 9 CrossSum account)).
+  assert (Hrem : remainder_of nd g (std_sum g 1 9 CrossSum account) = Ok R)
+    by (unfold remainder_of; rewrite Krem; apply iter_digit_sum_small; exact HS).
+  pose proof (iter_cross_range _ HS) as HRr. fold R in HRr.
+  assert (HR : (0 <= std_checksum g R <= 99)%Z) by (unfold std_checksum; rewrite Kmin; lia).
+  rewrite (std_validate g 1 9 10 CrossSum account account Hadj Hposof ltac:(lia) ltac:(lia) Kdig Kq Hw1 Hw2 Hd Hl R Hrem HR).
+  unfold std_checksum, reconcile. rewrite Kmin, Krec. cbn [bind verdict]. cbv zeta. f_equal.
+  unfold R. rewrite ES. fold (iter_cross 4 (tsum CrossSum w21 (rev (span 1 9 (digs account))))).
+  set (qq := iter_cross 4 (tsum CrossSum w21 (rev (span 1 9 (digs account))))) in *.
+  assert (Hq : (0 <= qq <= 9)%Z) by (unfold qq; rewrite <- ES; exact HRr).
+  destruct (Z.eqb_spec qq 0) as [->|Hne]; [reflexivity|]. replace (10 <=? 10 - qq)%Z with false by lia. reflexivity.
 Qed.
 End German.
